@@ -1400,3 +1400,67 @@ def expand_listcomps_with_calls(fn):
         return fn
     ast.fix_missing_locations(f2)
     return f2
+
+
+_LOG_METHODS = ("debug", "info", "warning", "warn", "error", "exception",
+                "critical", "log", "trace")
+
+
+def drop_logging(fn, world, modname):
+    """Copy of fn without the statements that only write to a logger: a
+    call of a logging method on a module-level name bound to
+    logging.getLogger(...) (or on the logging module), whose arguments call
+    nothing.  A handler name that was only read by such a statement is
+    dropped too.  (Assumption, stated by the checks that use this: writing
+    a log record neither raises nor changes what the function computes.)"""
+    from .inline import acopy
+
+    def is_logger(e):
+        if isinstance(e, ast.Name):
+            if e.id == "logging":
+                return True
+            b = world.lookup(modname, e.id) if world is not None else None
+            v = getattr(b, "value", None) if b is not None and getattr(
+                b, "kind", None) == "expr" else None
+            return isinstance(v, ast.Call) and ast.unparse(
+                v.func).endswith("getLogger")
+        return False
+
+    def is_log_stmt(s):
+        if not (isinstance(s, ast.Expr) and isinstance(s.value, ast.Call)):
+            return False
+        c = s.value
+        if not (isinstance(c.func, ast.Attribute) and c.func.attr in
+                _LOG_METHODS and is_logger(c.func.value)):
+            return False
+        for a in list(c.args) + [k.value for k in c.keywords]:
+            if any(isinstance(n, (ast.Call, ast.Await, ast.Yield,
+                                  ast.YieldFrom, ast.NamedExpr))
+                   for n in ast.walk(a)):
+                return False
+        return True
+    out = acopy(fn)
+    changed = [False]
+
+    class D(ast.NodeTransformer):
+        def generic_visit(self, node):
+            super().generic_visit(node)
+            for fld in ("body", "orelse", "finalbody"):
+                b = getattr(node, fld, None)
+                if isinstance(b, list) and b and isinstance(b[0], ast.stmt):
+                    nb = [s for s in b if not is_log_stmt(s)]
+                    if len(nb) != len(b):
+                        changed[0] = True
+                        if not nb and fld == "body":
+                            nb = [ast.copy_location(ast.Pass(), b[0])]
+                        setattr(node, fld, nb)
+            if isinstance(node, ast.ExceptHandler) and node.name and \
+                    not any(isinstance(n, ast.Name) and n.id == node.name
+                            for s in node.body for n in ast.walk(s)):
+                node.name = None
+            return node
+    out = D().visit(out)
+    if not changed[0]:
+        return fn
+    ast.fix_missing_locations(out)
+    return out
